@@ -311,6 +311,9 @@ class TBRiROAS():
     tail_probability = (1 - level) / tails
 
     metric_data = metric_df.analysis_data.copy().reset_index()
+    # Dates that do not belong to the pre-test, test or cooldown period are not
+    # part of the analysis.
+    metric_data = metric_data[metric_data['period'].isin(periods)]
 
     dates = metric_data.loc[metric_data['period'].isin(periods),
                             'date'].unique()
